@@ -97,27 +97,36 @@ class Ref:
         return sorted(o.path for o in self.nodes.get(path, {}).get(loc, []) if o.valid)
 
 
-def gen_history(rng: random.Random, nloc: int, depth: int, nops: int):
+def gen_history(rng: random.Random, nloc: int, depth: int, nops: int, wrapped: bool = False):
     names = ["a", "b", "e", "f"]
     pool = []
     for _ in range(rng.randint(2, 6)):
         d = rng.randint(1, depth)
         pool.append("/" + "/".join(rng.choice(names) for _ in range(d)))
     ops, nreg, rloc = [], 0, []
+    inner = set()          # indices of the inner (host side) objects of wrapped registrations: not handed to the caller
     for _ in range(nops):
         r = rng.random()
         if r < 0.45 or nreg < 2:
             p = rng.choice(pool)
             if rng.random() < 0.2:
                 p = str(Path(p).parent) if p.count("/") > 1 else p
-            ops.append(("reg", rng.randrange(nloc), p))
+            l = rng.randrange(nloc)
+            if l == 2 and wrapped:
+                # location 2 wraps location 0 with the mount /m -> /a: one register_path call registers both ends and relates them
+                ops.append(("wreg", 2, "/m" + p, 0, "/a" + p))
+                inner.add(nreg + 1)
+                rloc += [2, 0]
+                nreg += 2
+                continue
+            ops.append(("reg", l, p))
             rloc.append(ops[-1][1])
             nreg += 1
         elif r < 0.65:
             # relations join copies on DIFFERENT locations (a transfer); what invalidating one of two related paths on the
             # same location should do to the other is not fixed by the property (the code follows the relation)
             a, b = rng.randrange(nreg), rng.randrange(nreg)
-            if rloc[a] != rloc[b]:
+            if rloc[a] != rloc[b] and not (wrapped and (a in inner or b in inner)):
                 ops.append(("rel", a, b))
         else:
             p = rng.choice(pool)
@@ -139,6 +148,8 @@ CORPUS = [
     [("reg", 0, "/e/f"), ("reg", 0, "/e"), ("rel", 0, 1), ("inv", 0, "/e")],
     # a subtree skipped by the invalidation walk
     [("reg", 1, "/b/e/a"), ("reg", 0, "/b"), ("reg", 1, "/b/e/a/f"), ("rel", 1, 0), ("inv", 1, "/")],
+    # wrapped location d2 (mount /m -> /a on d0): one call registers both ends
+    [("reg", 1, "/x"), ("wreg", 2, "/m/b/f", 0, "/a/b/f"), ("inv", 0, "/a/b/f"), ("wreg", 2, "/m/b/f", 0, "/a/b/f"), ("inv", 2, "/m")],
     [("reg", 0, "/a/b/c"), ("inv", 0, "/a"), ("reg", 0, "/a/b/c"), ("reg", 1, "/a/b"), ("inv", 0, "/a/b/c"), ("inv", 1, "/")],
     [("reg", 0, "/a"), ("reg", 0, "/a"), ("inv", 0, "/a"), ("inv", 0, "/a"), ("reg", 0, "/a"), ("inv", 0, "/zz")],
     [("reg", 0, "/a/f"), ("reg", 0, "/b/g"), ("rel", 0, 1), ("inv", 0, "/a"), ("reg", 0, "/a/f")],
@@ -161,7 +172,7 @@ class C21(Property):
     trusted_base = [
         "modelled, not verified: pathlib.Path(p).parts and posixpath.join on normalised absolute paths; dict/list/set semantics; "
         "DataLocation objects as heap cells with a mutable validity flag; `available` events are not modelled",
-        "wrapped locations (mount points, get_inner_path) are not in the Lean model",
+        "a registration on a wrapped location (mount points, get_inner_path) enters the Lean model as its three primitive steps: register outer, register inner, relate",
     ]
     technique = ("Lean 4 model of the trie with object identities (heap) and the valid_paths cache; negative witnesses by kernel "
                  "evaluation and induction on the step budget; invariants for relation-free histories; differential correspondence")
@@ -185,6 +196,8 @@ class C21(Property):
     def _run(self, ctx: Ctx, ops, nloc, lines, expect, meta, bucket):
         dm = DefaultDataManager(_Context())
         locs = [ExecutionLocation(name="loc", deployment=f"d{i}", local=False) for i in range(nloc)]
+        if any(o[0] == "wreg" for o in ops):
+            locs[2] = ExecutionLocation(name="loc", deployment="d2", local=False, mounts={"/m": "/a"}, wraps=locs[0])
         ref = Ref()
         regs, rregs = [], []
         universe = set()
@@ -200,6 +213,21 @@ class C21(Property):
                 universe.update(prefixes(p))
                 res, rres = "ok", "ok"
                 lines.append(f"reg {l} {pp(p)}")
+                if seen_inv:
+                    nontriv = True
+            elif op[0] == "wreg":
+                _, l, p, li, pi = op
+                regs += [dm.register_path(locs[l], p), None]           # one call: outer + inner registration + relation
+                ro, ri = ref.register(l, p), ref.register(li, pi)
+                ref.relate(ro, ri)
+                rregs += [ro, ri]
+                universe.update(prefixes(p))
+                universe.update(prefixes(pi))
+                res, rres = "ok", "ok"
+                k = len(regs) - 2
+                lines += [f"reg {l} {pp(p)}", f"reg {li} {pp(pi)}", f"rel {k} {k + 1}"]
+                expect += ["ok", "ok"]
+                meta += [(ops, i, "wreg"), (ops, i, "wreg")]
                 if seen_inv:
                     nontriv = True
             elif op[0] == "rel":
@@ -249,7 +277,7 @@ class C21(Property):
                     if real != want:
                         diffs.append((q, l, real, want))
             if diffs:
-                has_rel = any(o[0] == "rel" for o in ops[: i + 1])
+                has_rel = any(o[0] in ("rel", "wreg") for o in ops[: i + 1])
                 stale = []
 
                 def walk(node, where, l):
@@ -295,7 +323,7 @@ class C21(Property):
         self._per_key = {}
         lines, expect, meta = [], [], []
         for ops in CORPUS:
-            self._run(ctx, ops, 2, lines, expect, meta, "corpus")
+            self._run(ctx, ops, 3 if any(o[0] == "wreg" for o in ops) else 2, lines, expect, meta, "corpus")
             ctx.corpus_replayed += 1
         n = 400 if ctx.tier == "quick" else 5000
         if ctx.mode == "search":
@@ -305,7 +333,9 @@ class C21(Property):
                 ctx.extra["incomplete"] = True
                 break
             nloc = rng.randint(1, 3)
-            self._run(ctx, gen_history(rng, nloc, rng.randint(1, 4), rng.randint(3, 14)), nloc, lines, expect, meta, "random")
+            wrapped = nloc == 3 and rng.random() < 0.5
+            self._run(ctx, gen_history(rng, nloc, rng.randint(1, 4), rng.randint(3, 14), wrapped), nloc, lines, expect, meta,
+                      "random:wrapped" if wrapped else "random")
         got = ctx.lean(DRIVER, lines)
         seen = set()
         for gl, e, (ops, i, what) in zip(got, expect, meta):
